@@ -7,6 +7,8 @@ globals: the Dask runner executes by-value copies of the task callables).
 """
 import json
 import os
+
+import cloudpickle
 import pathlib
 import textwrap
 import typing
@@ -55,6 +57,15 @@ class Sym(flow.Actor):
     def apply(self, features):
         log({'event': 'apply', 'actor': self.name, 'hp': self.hp, 'state': self.state})
         return features
+
+    def get_state(self) -> bytes:
+        """Like many user actors: the whole object is the state (hyper-parameters included)."""
+        return cloudpickle.dumps(dict(self.__dict__))
+
+    def set_state(self, state: bytes) -> None:
+        """...and it is restored as is: keeping the *current* hyper-parameters is the framework's job."""
+        if state:
+            self.__dict__.update(cloudpickle.loads(state))
 
     def get_params(self) -> typing.Mapping[str, typing.Any]:
         return {'name': self.name, 'hp': self.hp}
